@@ -397,7 +397,11 @@ def _worker(kc):
 
 def reals(rng, n, lim=None):
     out = [0.0, 1.0, -1.0, 0.5, -0.5, 2.0, 1e-9, -1e-9, 1e-300, 0.999999999, 1.000000001, -0.999999999, 10.0, 100.0, 3.141592653589793, 1.5707963267948966,
-           -3.141592653589793, 0.1, 7.25, 1e6, -1e6, 123456.789, 2.718281828459045, 1e-5, 0.25, 64.0, 3.0, -2.0, 1e15, 36.0]
+           -3.141592653589793, 0.1, 7.25, 1e6, -1e6, 123456.789, 2.718281828459045, 1e-5, 0.25, 64.0, 3.0, -2.0, 1e15, 36.0,
+           # the doubles next to the domain boundaries -1, 0, 1 on both sides, and a hair (1e-13 .. 1e-10) beyond them
+           1.0000000000000002, 0.9999999999999999, -1.0000000000000002, -0.9999999999999999, 5e-324, -5e-324, -1e-300,
+           1.0000000000001, -1.0000000000001, 1.0000000000005, -1.0000000000005, 1.00000000001, -1.00000000001, 0.9999999999999,
+           -0.9999999999999, -1e-13, 1e-13, -1e-16]
     for _ in range(n):
         m = rng.choice([1e-6, 1e-3, 0.1, 1, 1, 1, 10, 100, 1e4, 1e8])
         out.append(rng.uniform(-1, 1) * m)
